@@ -16,6 +16,7 @@ package marbl
 
 import (
 	"bufio"
+	"bytes"
 	"encoding/binary"
 	"fmt"
 	"io"
@@ -101,8 +102,10 @@ func (r *Reader) ReadFrame() (Frame, error) {
 		nl := binary.BigEndian.Uint32(lens[:4])
 		vl := binary.BigEndian.Uint32(lens[4:])
 
-		nv := make([]byte, int(nl+vl))
-		if _, err := io.ReadFull(r.r, nv); err != nil {
+		// nl+vl is summed in 64 bits: the uint32 sum wraps for corrupt
+		// lengths and the slice expressions below would panic.
+		nv, err := readN(r.r, uint64(nl)+uint64(vl))
+		if err != nil {
 			return nil, err
 		}
 
@@ -130,9 +133,8 @@ func (r *Reader) ReadFrame() (Frame, error) {
 
 		dl := binary.BigEndian.Uint32(desc[5:])
 
-
-		data := make([]byte, int(dl))
-		if _, err := io.ReadFull(r.r, data); err != nil {
+		data, err := readN(r.r, uint64(dl))
+		if err != nil {
 			return nil, err
 		}
 
@@ -142,4 +144,27 @@ func (r *Reader) ReadFrame() (Frame, error) {
 	default:
 		return nil, fmt.Errorf("marbl: unknown type of frame")
 	}
+}
+
+// readN reads exactly n bytes from r. The buffer grows with the bytes that
+// actually arrive, so a corrupt length field cannot force an allocation of
+// up to 8 GiB before the truncation is noticed. Errors are those of
+// io.ReadFull: io.EOF if no byte could be read, io.ErrUnexpectedEOF if the
+// input ended early.
+func readN(r io.Reader, n uint64) ([]byte, error) {
+	var buf bytes.Buffer
+
+	m, err := io.CopyN(&buf, r, int64(n))
+	if err == io.EOF && m > 0 {
+		err = io.ErrUnexpectedEOF
+	}
+	if err != nil {
+		return nil, err
+	}
+
+	if buf.Len() == 0 {
+		return []byte{}, nil
+	}
+
+	return buf.Bytes(), nil
 }
